@@ -201,13 +201,13 @@ func (dm *EmbeddedDMap) LockWithTimeout(ctx context.Context, key string, timeout
 // is no global lock on DMaps. So if you call Put/PutEx and Destroy methods
 // concurrently on the cluster, Put call may set new values to the DMap.
 func (dm *EmbeddedDMap) Destroy(ctx context.Context) error {
-	return dm.dm.Destroy(ctx)
+	return convertDMapError(dm.dm.Destroy(ctx))
 }
 
 // Expire updates the expiry for the given key. It returns ErrKeyNotFound if
 // the DB does not contain the key. It's thread-safe.
 func (dm *EmbeddedDMap) Expire(ctx context.Context, key string, timeout time.Duration) error {
-	return dm.dm.Expire(ctx, key, timeout)
+	return convertDMapError(dm.dm.Expire(ctx, key, timeout))
 }
 
 // Name exposes name of the DMap.
@@ -220,7 +220,7 @@ func (dm *EmbeddedDMap) Name() string {
 func (dm *EmbeddedDMap) GetPut(ctx context.Context, key string, value interface{}) (*GetResponse, error) {
 	e, err := dm.dm.GetPut(ctx, key, value)
 	if err != nil {
-		return nil, err
+		return nil, convertDMapError(err)
 	}
 	return &GetResponse{
 		entry: e,
@@ -230,25 +230,29 @@ func (dm *EmbeddedDMap) GetPut(ctx context.Context, key string, value interface{
 // Decr atomically decrements the key by delta. The return value is the new value
 // after being decremented or an error.
 func (dm *EmbeddedDMap) Decr(ctx context.Context, key string, delta int) (int, error) {
-	return dm.dm.Decr(ctx, key, delta)
+	res, err := dm.dm.Decr(ctx, key, delta)
+	return res, convertDMapError(err)
 }
 
 // Incr atomically increments the key by delta. The return value is the new value
 // after being incremented or an error.
 func (dm *EmbeddedDMap) Incr(ctx context.Context, key string, delta int) (int, error) {
-	return dm.dm.Incr(ctx, key, delta)
+	res, err := dm.dm.Incr(ctx, key, delta)
+	return res, convertDMapError(err)
 }
 
 // IncrByFloat atomically increments the key by delta. The return value is the new value after being incremented or an error.
 func (dm *EmbeddedDMap) IncrByFloat(ctx context.Context, key string, delta float64) (float64, error) {
-	return dm.dm.IncrByFloat(ctx, key, delta)
+	res, err := dm.dm.IncrByFloat(ctx, key, delta)
+	return res, convertDMapError(err)
 }
 
 // Delete deletes values for the given keys. Delete will not return error
 // if key doesn't exist. It's thread-safe. It is safe to modify the contents
 // of the argument after Delete returns.
 func (dm *EmbeddedDMap) Delete(ctx context.Context, keys ...string) (int, error) {
-	return dm.dm.Delete(ctx, keys...)
+	res, err := dm.dm.Delete(ctx, keys...)
+	return res, convertDMapError(err)
 }
 
 // Get gets the value for the given key. It returns ErrKeyNotFound if the DB
